@@ -524,15 +524,15 @@ def rawCode (code : Nat) : Prop :=
 
 theorem rt_known_raw (code flags : Nat) (d : Data) (hcode : code = 14 ∨ code = 15 ∨ code = 26)
     (hwf : WF ⟨code, flags, d⟩) (hc : flagsCanon ⟨code, flags, d⟩) : RT current ⟨code, flags, d⟩ := by
-  rcases hcode with rfl | rfl | rfl <;>
-  · have hf : flags = 0x80 := hc 0x80 (by simp [canonicalFlags])
-    subst hf
-    cases d with
-    | val v => simp [WF, wfClause, classOf, valClause] at hwf
-    | raw b => simp [WF, wfClause, classOf] at hwf
-    | bin b =>
-        exact ⟨.unknown 0x80 _ b, by simp [toApi, Attribute.binary],
-          by simp [fromApi, current, canonicalFlags, typedCode]⟩
+  have hf : flags = 0x80 := hc 0x80 (by rcases hcode with rfl | rfl | rfl <;> simp [canonicalFlags])
+  subst hf
+  cases d with
+  | val v => rcases hcode with rfl | rfl | rfl <;> simp [WF, wfClause, classOf, valClause] at hwf
+  | raw b => rcases hcode with rfl | rfl | rfl <;> simp [WF, wfClause, classOf] at hwf
+  | bin b =>
+      refine ⟨.unknown 0x80 code b, ?_, ?_⟩
+      · rcases hcode with rfl | rfl | rfl <;> simp [toApi, Attribute.binary]
+      · rcases hcode with rfl | rfl | rfl <;> simp [fromApi, current, canonicalFlags, typedCode]
 
 theorem rt_unknown (code flags : Nat) (d : Data) (hr : rawCode code) (h14 : code ≠ 14) (h15 : code ≠ 15)
     (h26 : code ≠ 26) (hwf : WF ⟨code, flags, d⟩) : RT current ⟨code, flags, d⟩ := by
@@ -590,5 +590,1531 @@ theorem roundtrip_attr (a : Attribute) (hwf : WF a) (hm : modelledCode a.code = 
   · exact rt_known_raw code flags d h3 hwf hc
   · have hr : rawCode code := by unfold rawCode; omega
     exact rt_unknown code flags d hr (by omega) (by omega) (by omega) hwf
+
+/-! ## the wire decoder establishes `WF` -/
+
+theorem allB_specBytes {bs : Bytes} (h : AllB bs) : Spec.isBytes bs = true := by
+  simp only [Spec.isBytes, List.all_eq_true, decide_eq_true_eq]
+  exact h
+
+def dataClause (code : Nat) : Data → Option String
+  | .raw _ => some "recognised-attribute-opaque"
+  | .val v => valClause code v
+  | .bin bs => binClause code bs
+
+theorem decodeData_wf (code : Nat) (bs : Bytes) (d : Data) (hb : AllB bs)
+    (h : decodeData code bs = some d) : dataClause code d = none := by
+  have hbs := allB_specBytes hb
+  by_cases h1 : code = 1
+  · subst h1
+    simp only [decodeData, if_true] at h
+    match bs, h with
+    | [v], h =>
+        simp only [] at h
+        split at h
+        · simp at h
+        · simp only [Option.some.injEq] at h; subst h
+          simp [dataClause, valClause]; omega
+  by_cases h4 : code = 4 ∨ code = 5 ∨ code = 9
+  · have hlen : bs.length = 4 ∧ d = .val (ofBe bs) := by
+      rcases h4 with rfl | rfl | rfl <;> (simp [decodeData] at h; exact ⟨h.1, h.2.symm⟩)
+    obtain ⟨hl, rfl⟩ := hlen
+    have := ofBe_lt bs hb
+    rw [hl] at this
+    rcases h4 with rfl | rfl | rfl <;> simp [dataClause, valClause] <;> omega
+  by_cases h2 : code = 2
+  · subst h2
+    simp [decodeData] at h
+    obtain ⟨hs, rfl⟩ := h
+    simp [dataClause, binClause, hbs, segments_eq, hs]
+  by_cases h6 : code = 6
+  · subst h6
+    simp [decodeData] at h
+    obtain ⟨hs, rfl⟩ := h
+    simp [dataClause, binClause, Spec.isBytes]
+  by_cases h7 : code = 7
+  · subst h7
+    simp [decodeData] at h
+    split at h
+    · rename_i h6'
+      obtain ⟨_, h⟩ := h
+      simp only [Option.some.injEq] at h; subst h
+      have hb' : AllB (beN 4 (ofBe (List.take 2 bs)) ++ List.drop 2 bs) :=
+        AllB.append (beN_lt 4 _) (hb.drop _)
+      simp [dataClause, binClause, allB_specBytes hb', beN_length, h6']
+    · rename_i h6'
+      obtain ⟨hs, h⟩ := h
+      simp only [Option.some.injEq] at h; subst h
+      simp [dataClause, binClause, hbs, hs h6']
+  by_cases h8 : code = 8 ∨ code = 10 ∨ code = 16 ∨ code = 32 ∨ code = 18
+  · rcases h8 with rfl | rfl | rfl | rfl | rfl <;>
+    · simp [decodeData] at h
+      obtain ⟨hs, rfl⟩ := h
+      simp [dataClause, binClause, hbs, hs]
+  by_cases h17 : code = 17
+  · subst h17
+    simp [decodeData] at h
+    obtain ⟨⟨hl2, hl6⟩, hs, rfl⟩ := h
+    simp [dataClause, binClause, hbs, segmentsNonEmpty_eq, hs, hl2]; omega
+  · have hd : d = .bin bs := by
+      have : ¬ (code = 4 ∨ code = 5 ∨ code = 9) := h4
+      have h810 : ¬ (code = 8 ∨ code = 10) := by omega
+      have h16 : code ≠ 16 := by omega
+      have h32 : code ≠ 32 := by omega
+      have h18 : code ≠ 18 := by omega
+      simp [decodeData, *] at h
+      exact h.symm
+    subst hd
+    have h810 : ¬ (code = 8 ∨ code = 10) := by omega
+    have h1459 : ¬ (code = 1 ∨ code = 4 ∨ code = 5 ∨ code = 9) := by omega
+    have h16 : code ≠ 16 := by omega
+    have h32 : code ≠ 32 := by omega
+    have h18 : code ≠ 18 := by omega
+    simp [dataClause, binClause, hbs, *]
+
+theorem wfClause_known (a : Attribute) (cls : Nat) (hcl : classOf a.code = some cls) :
+    wfClause a = need (decide (a.code < 256) && decide (a.flags < 256)) "code-or-flags-out-of-range"
+      (need (flagsOk cls a.flags) "flag-class-wrong" (dataClause a.code a.data)) := by
+  unfold wfClause
+  rw [hcl]
+  cases a.data <;> rfl
+
+theorem canon_class (code f : Nat) (h : canonicalFlags code = some f) :
+    ∃ cls, classOf code = some cls ∧ ∀ flags, classBits flags = classBits f → flagsOk cls flags = true := by
+  unfold canonicalFlags at h
+  split at h
+  · rename_i hc
+    simp only [Option.some.injEq] at h; subst h
+    refine ⟨1, ?_, ?_⟩
+    · rcases hc with rfl | rfl | rfl | rfl | rfl <;> simp [classOf]
+    · intro flags hf; simp only [classBits] at hf; simp [flagsOk]; omega
+  · split at h
+    · rename_i hc
+      simp only [Option.some.injEq] at h; subst h
+      refine ⟨2, ?_, ?_⟩
+      · rcases hc with rfl | rfl | rfl | rfl | rfl | rfl | rfl <;> simp [classOf]
+      · intro flags hf; simp only [classBits] at hf; simp [flagsOk]; omega
+    · split at h
+      · rename_i hc
+        simp only [Option.some.injEq] at h; subst h
+        refine ⟨3, ?_, ?_⟩
+        · rcases hc with rfl | rfl | rfl | rfl | rfl | rfl | rfl | rfl <;> simp [classOf]
+        · intro flags hf; simp only [classBits] at hf; simp [flagsOk]; omega
+      · simp at h
+
+theorem canon_none_class (code : Nat) (h : canonicalFlags code = none) : classOf code = none := by
+  unfold canonicalFlags at h
+  split at h
+  · simp at h
+  · split at h
+    · simp at h
+    · split at h
+      · simp at h
+      · rename_i h1 h2 h3
+        simp only [classOf, List.mem_cons, List.not_mem_nil, or_false]
+        rw [if_neg (by omega), if_neg (by omega), if_neg (by omega)]
+
+/-- **decode_wf**: whatever the UPDATE parser stores satisfies the structural invariants `WF`,
+    carries the wire flags verbatim, and is never NEXT_HOP / MP_* / AS4_*. -/
+theorem decode_wf (code flags : Nat) (bs : Bytes) (a : Attribute) (hc : code < 256) (hf : flags < 256)
+    (hb : AllB bs) (h : decodeAttr code flags bs = .stored a) :
+    WF a ∧ a.code = code ∧ a.flags = flags ∧
+      (code ≠ 3 ∧ code ≠ 14 ∧ code ≠ 15 ∧ code ≠ 17 ∧ code ≠ 18) := by
+  unfold decodeAttr at h
+  split at h
+  · rename_i expected hcan
+    obtain ⟨cls, hcl, hfl⟩ := canon_class code expected hcan
+    split at h
+    · simp at h
+    · rename_i hbits
+      split at h
+      · rename_i d hd
+        split at h
+        · simp at h
+        · split at h
+          · simp at h
+          · rename_i n1 n2
+            simp only [Decoded.stored.injEq] at h; subst h
+            refine ⟨?_, rfl, rfl, by omega⟩
+            simp only [WF]
+            rw [wfClause_known _ cls hcl]
+            simp only [need_eq_none, Bool.and_eq_true, decide_eq_true_eq]
+            exact ⟨⟨hc, hf⟩, hfl flags (by simpa using hbits), decodeData_wf code bs d hb hd⟩
+      · split at h <;> simp at h
+  · rename_i hcan
+    have hcl := canon_none_class code hcan
+    split at h
+    · simp at h
+    · rename_i hopt
+      split at h
+      · rename_i htr
+        simp only [Decoded.stored.injEq] at h; subst h
+        refine ⟨?_, rfl, rfl, ?_⟩
+        · simp only [WF, wfClause, hcl, need_eq_none, Bool.and_eq_true, decide_eq_true_eq, beq_iff_eq]
+          refine ⟨⟨hc, hf⟩, ⟨⟨?_, ?_⟩, allB_specBytes hb⟩, trivial⟩ <;> omega
+        · simp only [canonicalFlags] at hcan
+          split at hcan
+          · simp at hcan
+          · split at hcan
+            · simp at hcan
+            · split at hcan
+              · simp at hcan
+              · omega
+      · simp at h
+
+/-! ## what `attr_from_api` accepts is well-formed -/
+
+theorem canon_lt (code f : Nat) (h : canonicalFlags code = some f) : code < 256 ∧ f < 256 := by
+  unfold canonicalFlags at h
+  split at h
+  · simp only [Option.some.injEq] at h; omega
+  · split at h
+    · simp only [Option.some.injEq] at h; omega
+    · split at h
+      · simp only [Option.some.injEq] at h; omega
+      · simp at h
+
+/-- a value built by `Attribute::new_with_bin` / `new_with_value` is well-formed as soon as its data is -/
+theorem wf_canon (code f : Nat) (d : Data) (hcan : canonicalFlags code = some f)
+    (hd : dataClause code d = none) : WF ⟨code, f, d⟩ ∧ flagsCanon ⟨code, f, d⟩ := by
+  obtain ⟨cls, hcl, hfl⟩ := canon_class code f hcan
+  obtain ⟨h1, h2⟩ := canon_lt code f hcan
+  refine ⟨?_, ?_⟩
+  · simp only [WF]
+    rw [wfClause_known _ cls hcl]
+    simp only [need_eq_none, Bool.and_eq_true, decide_eq_true_eq]
+    exact ⟨⟨h1, h2⟩, hfl f rfl, hd⟩
+  · intro f' hf'
+    simp only at hf'
+    rw [hcan] at hf'
+    simp only [Option.some.injEq] at hf'
+    exact hf'
+
+theorem modelIsBytes_allB {bs : Bytes} (h : Rbgp.Api.isBytes bs = true) : AllB bs := allB_of_isBytes h
+
+theorem flatMap_len4 (l : List Nat) : (l.flatMap (beN 4)).length % 4 = 0 := by
+  rw [flatMap_beN4_length]; omega
+
+theorem ite_bind_eq_some {α} (b v : Nat) (f : Nat → Option α) (c : α) :
+    ((if b < v then none else some v).bind f = some c) ↔ (v ≤ b ∧ f v = some c) := by
+  split
+  · simp; omega
+  · simp; omega
+
+theorem parse4_bind_eq_some {α} (s : AStr) (f : Nat → Option α) (c : α) :
+    (s.parse4.bind f = some c) ↔ ∃ n, s = .ip4 n ∧ f n = some c := by
+  cases s <;> simp [AStr.parse4]
+
+theorem AllB.cons {x : Nat} {l : Bytes} (hx : x < 256) (hl : AllB l) : AllB (x :: l) := by
+  intro b hb
+  rcases List.mem_cons.mp hb with rfl | hb
+  · exact hx
+  · exact hl b hb
+
+theorem boolBit_lt (b : Bool) (v : Nat) (h : v < 200) : boolBit b v < 200 := by
+  unfold boolBit; split <;> omega
+theorem boolBit_le (b : Bool) (v : Nat) : boolBit b v ≤ v := by
+  unfold boolBit; split <;> omega
+
+theorem writeExtcom_len (e : ExtCom) (c : Bytes) (hr : e.inRange = true) (h : writeExtcom e = some c) :
+    c.length = 8 ∧ AllB c := by
+  cases e with
+  | missing => simp [writeExtcom] at h
+  | other => simp [writeExtcom] at h
+  | unknown ty v =>
+      simp only [writeExtcom] at h
+      split at h
+      · simp at h
+      · rename_i hl
+        simp only [Option.some.injEq] at h; subst h
+        simp only [ExtCom.inRange, Bool.and_eq_true] at hr
+        exact ⟨by omega, modelIsBytes_allB hr.2⟩
+  | twoOctetAs t sub a la =>
+      simp [writeExtcom, ensure, ite_bind_eq_some] at h
+      obtain ⟨h1, h2, rfl⟩ := h
+      have := boolBit_lt (!t) 64 (by omega)
+      exact ⟨by simp [beN_length], AllB.cons (by omega) (AllB.cons (by omega) (AllB.append (beN_lt _ _) (beN_lt _ _)))⟩
+  | ipv4 t sub addr la =>
+      simp [writeExtcom, ensure, ite_bind_eq_some, parse4_bind_eq_some] at h
+      obtain ⟨h1, n, rfl, h2, rfl⟩ := h
+      have := boolBit_lt (!t) 64 (by omega)
+      exact ⟨by simp [beN_length], AllB.cons (by omega) (AllB.cons (by omega) (AllB.append (beN_lt _ _) (beN_lt _ _)))⟩
+  | fourOctetAs t sub a la =>
+      simp [writeExtcom, ensure, ite_bind_eq_some] at h
+      obtain ⟨h1, h2, rfl⟩ := h
+      have := boolBit_lt (!t) 64 (by omega)
+      exact ⟨by simp [beN_length], AllB.cons (by omega) (AllB.cons (by omega) (AllB.append (beN_lt _ _) (beN_lt _ _)))⟩
+  | mup sub a b =>
+      simp [writeExtcom, ensure, ite_bind_eq_some] at h
+      obtain ⟨h1, h2, rfl⟩ := h
+      exact ⟨by simp [beN_length], AllB.cons (by omega) (AllB.cons (by omega) (AllB.append (beN_lt _ _) (beN_lt _ _)))⟩
+  | trafficRate a r =>
+      simp [writeExtcom, ensure, ite_bind_eq_some] at h
+      obtain ⟨h1, rfl⟩ := h
+      exact ⟨by simp [beN_length], AllB.cons (by omega) (AllB.cons (by omega) (AllB.append (beN_lt _ _) (beN_lt _ _)))⟩
+  | trafficAction t s =>
+      simp [writeExtcom] at h
+      subst h
+      have h1 := boolBit_le t 1
+      have h2 := boolBit_le s 2
+      refine ⟨rfl, ?_⟩
+      intro b hb
+      simp only [List.mem_cons, List.not_mem_nil, or_false] at hb
+      rcases hb with rfl | rfl | rfl | rfl | rfl | rfl | rfl | rfl <;> omega
+  | redirect2 a l =>
+      simp [writeExtcom, ensure, ite_bind_eq_some] at h
+      obtain ⟨h1, rfl⟩ := h
+      exact ⟨by simp [beN_length], AllB.cons (by omega) (AllB.cons (by omega) (AllB.append (beN_lt _ _) (beN_lt _ _)))⟩
+  | trafficRemark d =>
+      simp [writeExtcom] at h
+      subst h
+      refine ⟨rfl, ?_⟩
+      intro b hb
+      simp only [List.mem_cons, List.not_mem_nil, or_false] at hb
+      rcases hb with rfl | rfl | rfl | rfl | rfl | rfl | rfl | rfl <;> omega
+  | redirectIp4 addr l =>
+      simp [writeExtcom, ensure, ite_bind_eq_some, parse4_bind_eq_some] at h
+      obtain ⟨n, rfl, h2, rfl⟩ := h
+      exact ⟨by simp [beN_length], AllB.cons (by omega) (AllB.cons (by omega) (AllB.append (beN_lt _ _) (beN_lt _ _)))⟩
+  | redirect4 a l =>
+      simp [writeExtcom, ensure, ite_bind_eq_some] at h
+      obtain ⟨h1, rfl⟩ := h
+      exact ⟨by simp [beN_length], AllB.cons (by omega) (AllB.cons (by omega) (AllB.append (beN_lt _ _) (beN_lt _ _)))⟩
+theorem binClause_c8 (bs : Bytes) (hb : Spec.isBytes bs = true) (hl : bs.length % 4 = 0) :
+    binClause 8 bs = none := by simp [binClause, hb, hl]
+theorem binClause_c10 (bs : Bytes) (hb : Spec.isBytes bs = true) (hl : bs.length % 4 = 0) :
+    binClause 10 bs = none := by simp [binClause, hb, hl]
+theorem binClause_c16 (bs : Bytes) (hb : Spec.isBytes bs = true) (hl : bs.length % 8 = 0) :
+    binClause 16 bs = none := by simp [binClause, hb, hl]
+theorem binClause_c32 (bs : Bytes) (hb : Spec.isBytes bs = true) (hl : bs.length % 12 = 0) :
+    binClause 32 bs = none := by simp [binClause, hb, hl]
+theorem binClause_c7 (bs : Bytes) (hb : Spec.isBytes bs = true) (hl : bs.length = 8) :
+    binClause 7 bs = none := by simp [binClause, hb, hl]
+theorem binClause_c2 (bs : Bytes) (hb : Spec.isBytes bs = true) (hs : segsOk bs = true) :
+    binClause 2 bs = none := by simp [binClause, hb, segments_eq, hs]
+theorem binClause_c3 (bs : Bytes) (hb : Spec.isBytes bs = true) : binClause 3 bs = none := by
+  simp [binClause, hb]
+
+theorem flatMap3_len (l : List (Nat × Nat × Nat)) :
+    (l.flatMap fun t => beN 4 t.1 ++ beN 4 t.2.1 ++ beN 4 t.2.2).length % 12 = 0 := by
+  induction l with
+  | nil => rfl
+  | cons t ts ih =>
+      rw [List.flatMap_cons, List.length_append]
+      simp only [List.length_append, beN_length]
+      omega
+
+theorem mapM_some_forall {α β} (f : α → Option β) (P : β → Prop) (l : List α) (cs : List β)
+    (h : l.mapM f = some cs) (hp : ∀ e ∈ l, ∀ c, f e = some c → P c) : ∀ c ∈ cs, P c := by
+  induction l generalizing cs with
+  | nil => simp at h; subst h; simp
+  | cons e es ih =>
+      simp only [List.mapM_cons, Option.bind_eq_bind, Option.pure_def] at h
+      cases hfe : f e with
+      | none => simp [hfe] at h
+      | some x =>
+          cases hes : es.mapM f with
+          | none => simp [hfe, hes] at h
+          | some xs =>
+              simp [hfe, hes] at h
+              subst h
+              intro c hc
+              rcases List.mem_cons.mp hc with rfl | hc
+              · exact hp e (by simp) _ hfe
+              · exact ih xs hes (fun e' he' => hp e' (List.mem_cons_of_mem _ he')) c hc
+
+theorem flatten_len8 (cs : List Bytes) (h : ∀ c ∈ cs, c.length = 8 ∧ AllB c) :
+    cs.flatten.length % 8 = 0 ∧ AllB cs.flatten := by
+  induction cs with
+  | nil => exact ⟨rfl, by intro b hb; simp at hb⟩
+  | cons c cs ih =>
+      obtain ⟨h1, h2⟩ := ih (fun c' hc' => h c' (List.mem_cons_of_mem _ hc'))
+      obtain ⟨hc1, hc2⟩ := h c (by simp)
+      refine ⟨?_, ?_⟩
+      · simp only [List.flatten_cons, List.length_append]; omega
+      · simp only [List.flatten_cons]; exact AllB.append hc2 h2
+
+/-- **from_api_wf**: whatever `attr_from_api` accepts satisfies the invariants of wire-decoded values,
+    and carries the canonical flags of its code. -/
+theorem from_api_wf (x : ApiAttr) (a : Attribute) (hr : x.inRange = true)
+    (h : fromApi current x = .ok a) : WF a ∧ flagsCanon a := by
+  cases x with
+  | missing => simp [fromApi] at h
+  | other => simp [fromApi] at h
+  | origin o =>
+      simp only [fromApi, current] at h
+      split at h
+      · simp at h
+      · rename_i ho
+        have ho' : o ≤ 2 := by simp at ho; omega
+        simp [newWithValue, canonicalFlags] at h; subst h
+        exact wf_canon 1 0x40 _ (by simp [canonicalFlags]) (by simp [dataClause, valClause]; omega)
+  | med m =>
+      simp [fromApi, newWithValue, canonicalFlags] at h; subst h
+      simp only [ApiAttr.inRange, u32, decide_eq_true_eq] at hr
+      exact wf_canon 4 0x80 _ (by simp [canonicalFlags]) (by simp [dataClause, valClause]; omega)
+  | localPref m =>
+      simp [fromApi, newWithValue, canonicalFlags] at h; subst h
+      simp only [ApiAttr.inRange, u32, decide_eq_true_eq] at hr
+      exact wf_canon 5 0x40 _ (by simp [canonicalFlags]) (by simp [dataClause, valClause]; omega)
+  | atomicAggregate =>
+      simp [fromApi, newWithBin, canonicalFlags] at h; subst h
+      exact wf_canon 6 0x40 _ (by simp [canonicalFlags]) (by simp [dataClause, binClause, Spec.isBytes])
+  | nextHop s =>
+      simp only [fromApi, current] at h
+      cases s with
+      | ip4 n =>
+          simp [AStr.parse4, newWithBin, canonicalFlags] at h; subst h
+          exact wf_canon 3 0x40 _ (by simp [canonicalFlags])
+            (binClause_c3 _ (allB_specBytes (beN_lt 4 n)))
+      | ip6 n =>
+          simp [AStr.parse4, AStr.parse6, newWithBin, canonicalFlags] at h; subst h
+          exact wf_canon 3 0x40 _ (by simp [canonicalFlags])
+            (binClause_c3 _ (allB_specBytes (beN_lt 16 n)))
+      | bad k => simp [AStr.parse4, AStr.parse6] at h
+  | aggregator asn addr =>
+      simp only [fromApi] at h
+      cases addr with
+      | ip4 n =>
+          simp [AStr.parse4, newWithBin, canonicalFlags] at h; subst h
+          exact wf_canon 7 0xC0 _ (by simp [canonicalFlags])
+            (binClause_c7 _ (allB_specBytes (AllB.append (beN_lt 4 asn) (beN_lt 4 n)))
+              (by simp [beN_length]))
+      | ip6 n => simp [AStr.parse4] at h
+      | bad k => simp [AStr.parse4] at h
+  | communities l =>
+      simp [fromApi, newWithBin, canonicalFlags] at h; subst h
+      exact wf_canon 8 0xC0 _ (by simp [canonicalFlags])
+        (binClause_c8 _ (allB_specBytes (flatMap_beN_allB 4 l)) (flatMap_len4 l))
+  | originatorId s =>
+      simp only [fromApi] at h
+      cases s with
+      | ip4 n =>
+          simp [AStr.parse4, newWithValue, canonicalFlags] at h; subst h
+          simp only [ApiAttr.inRange, AStr.inRange, u32, decide_eq_true_eq] at hr
+          exact wf_canon 9 0x80 _ (by simp [canonicalFlags]) (by simp [dataClause, valClause]; omega)
+      | ip6 n => simp [AStr.parse4] at h
+      | bad k => simp [AStr.parse4] at h
+  | clusterList ids =>
+      simp only [fromApi] at h
+      split at h
+      · simp at h
+      · rename_i l hl
+        simp [newWithBin, canonicalFlags] at h; subst h
+        exact wf_canon 10 0x80 _ (by simp [canonicalFlags])
+          (binClause_c10 _ (allB_specBytes (flatMap_beN_allB 4 l)) (flatMap_len4 l))
+  | largeCommunities l =>
+      simp only [fromApi, okOrErr_eq, newWithBin, canonicalFlags] at h
+      simp at h; subst h
+      have hb : AllB (l.flatMap fun t => beN 4 t.1 ++ beN 4 t.2.1 ++ beN 4 t.2.2) := by
+        intro b hb
+        rcases List.mem_flatMap.mp hb with ⟨t, _, ht⟩
+        simp only [List.mem_append] at ht
+        rcases ht with (ht | ht) | ht <;> exact beN_lt 4 _ b ht
+      have e : (l.flatMap fun t => beN 4 t.1 ++ (beN 4 t.2.1 ++ beN 4 t.2.2))
+          = (l.flatMap fun t => beN 4 t.1 ++ beN 4 t.2.1 ++ beN 4 t.2.2) := by
+        simp only [List.append_assoc]
+      rw [e]
+      exact wf_canon 32 0xC0 _ (by simp [canonicalFlags])
+        (binClause_c32 _ (allB_specBytes hb) (flatMap3_len l))
+  | extCommunities l =>
+      simp only [fromApi] at h
+      split at h
+      · simp at h
+      · rename_i cs hcs
+        simp [newWithBin, canonicalFlags] at h; subst h
+        simp only [ApiAttr.inRange, List.all_eq_true] at hr
+        have hall : ∀ c ∈ cs, c.length = 8 ∧ AllB c :=
+          mapM_some_forall writeExtcom _ l cs hcs (fun e he c hc => writeExtcom_len e c (hr e he) hc)
+        obtain ⟨h8, hb⟩ := flatten_len8 cs hall
+        exact wf_canon 16 0xC0 _ (by simp [canonicalFlags])
+          (binClause_c16 _ (allB_specBytes hb) h8)
+  | asPath segs =>
+      simp only [fromApi, current] at h
+      split at h
+      · simp at h
+      · rename_i hany
+        simp [newWithBin, canonicalFlags] at h; subst h
+        have hsegs : ∀ s ∈ segs, (1 ≤ s.1 ∧ s.1 ≤ 4) ∧ s.2.length ≤ 255 := by
+          intro s hs
+          simp only [true_and, List.any_eq_true, not_exists, not_and, Bool.or_eq_true,
+            Bool.not_eq_true', decide_eq_false_iff_not, decide_eq_true_eq, not_or] at hany
+          have := hany s hs
+          omega
+        have hok := segsOk_enc segs hsegs
+        have hb := encSeg_allB segs
+        exact wf_canon 2 0x40 _ (by simp [canonicalFlags])
+          (by
+            have e : (segs.flatMap fun s => s.1 % 256 :: s.2.length % 256 :: s.2.flatMap (beN 4))
+                = segs.flatMap encSeg := rfl
+            rw [e]
+            exact binClause_c2 _ (allB_specBytes hb) hok)
+  | unknown f t v =>
+      simp only [fromApi, current, if_true] at h
+      split at h
+      · simp at h
+      · rename_i hlt
+        have ht : t % 256 = t := Nat.mod_eq_of_lt (by omega)
+        rw [ht] at h
+        simp only [ApiAttr.inRange, Bool.and_eq_true] at hr
+        have hv := allB_specBytes (modelIsBytes_allB hr.2)
+        split at h
+        · rename_i fl hcan
+          split at h
+          · simp at h
+          · rename_i hty
+            simp only [Out.ok.injEq] at h; subst h
+            simp only [typedCode, decide_eq_true_eq, not_or] at hty
+            obtain ⟨n1, n2, n3, n4, n5, n6, n7, n8, n9, n10, n16, n32, n23, n29, n17, n18⟩ := hty
+            exact wf_canon t fl _ hcan (by
+              have a1 : ¬ (t = 1 ∨ t = 4 ∨ t = 5 ∨ t = 9) := by omega
+              have a2 : ¬ (t = 8 ∨ t = 10) := by omega
+              simp [dataClause, binClause, hv, *])
+        · rename_i hcan
+          split at h
+          · rename_i hbits
+            simp only [Out.ok.injEq] at h; subst h
+            have hcl := canon_none_class t hcan
+            refine ⟨?_, ?_⟩
+            · simp only [WF, wfClause, hcl, need_eq_none, Bool.and_eq_true, decide_eq_true_eq, beq_iff_eq]
+              exact ⟨⟨by omega, by omega⟩, ⟨⟨hbits.1, hbits.2⟩, hv⟩, trivial⟩
+            · intro f' hf'; simp only at hf'; rw [hcan] at hf'; simp at hf'
+          · simp at h
+
+/-! ## consumers never panic on well-formed values -/
+
+theorem wf_class (a : Attribute) (h : WF a) :
+    (∃ cls, classOf a.code = some cls ∧ dataClause a.code a.data = none) ∨
+    (classOf a.code = none ∧ ∃ b, a.data = .raw b) := by
+  cases hcl : classOf a.code with
+  | some cls =>
+      left
+      simp only [WF] at h
+      rw [wfClause_known a cls hcl] at h
+      simp only [need_eq_none] at h
+      exact ⟨cls, rfl, h.2.2⟩
+  | none =>
+      right
+      simp only [WF, wfClause, hcl, need_eq_none] at h
+      refine ⟨rfl, ?_⟩
+      cases hd : a.data with
+      | raw b => exact ⟨b, rfl⟩
+      | val v => rw [hd] at h; simp at h
+      | bin b => rw [hd] at h; simp at h
+
+theorem wf_val_of_code (a : Attribute) (h : WF a) (hc : a.code = 1 ∨ a.code = 4 ∨ a.code = 5 ∨ a.code = 9) :
+    ∃ v, a.data = .val v := by
+  rcases wf_class a h with ⟨cls, _, hd⟩ | ⟨hcl, _⟩
+  · cases hdat : a.data with
+    | val v => exact ⟨v, rfl⟩
+    | raw b => rw [hdat] at hd; simp [dataClause] at hd
+    | bin b =>
+        rw [hdat] at hd
+        rcases hc with hc | hc | hc | hc <;> simp [dataClause, binClause, hc] at hd
+  · rcases hc with hc | hc | hc | hc <;> simp [classOf, hc] at hcl
+
+theorem wf_binary_of_code (a : Attribute) (h : WF a)
+    (hc : ¬ (a.code = 1 ∨ a.code = 4 ∨ a.code = 5 ∨ a.code = 9)) : ∃ b, a.binary = some b := by
+  rcases wf_class a h with ⟨cls, _, hd⟩ | ⟨_, b, hb⟩
+  · cases hdat : a.data with
+    | val v =>
+        rw [hdat] at hd
+        have h1 : a.code ≠ 1 := by omega
+        have h4 : ¬ (a.code = 4 ∨ a.code = 5 ∨ a.code = 9) := by omega
+        simp [dataClause, valClause, h1, h4] at hd
+    | raw b => exact ⟨b, by simp [Attribute.binary, hdat]⟩
+    | bin b => exact ⟨b, by simp [Attribute.binary, hdat]⟩
+  · exact ⟨b, by simp [Attribute.binary, hb]⟩
+
+theorem wf_aspath (a : Attribute) (h : WF a) (hc : a.code = 2) : ∃ b, a.data = .bin b ∧ segsOk b = true := by
+  rcases wf_class a h with ⟨cls, _, hd⟩ | ⟨hcl, _⟩
+  · cases hdat : a.data with
+    | val v => rw [hdat] at hd; simp [dataClause, valClause, hc] at hd
+    | raw b => rw [hdat] at hd; simp [dataClause] at hd
+    | bin b =>
+        rw [hdat] at hd
+        simp [dataClause, binClause, hc, segments_eq] at hd
+        exact ⟨b, rfl, hd.2⟩
+  · simp [classOf, hc] at hcl
+
+theorem wf_aggregator (a : Attribute) (h : WF a) (hc : a.code = 7) : ∃ b, a.data = .bin b ∧ b.length = 8 := by
+  rcases wf_class a h with ⟨cls, _, hd⟩ | ⟨hcl, _⟩
+  · cases hdat : a.data with
+    | val v => rw [hdat] at hd; simp [dataClause, valClause, hc] at hd
+    | raw b => rw [hdat] at hd; simp [dataClause] at hd
+    | bin b =>
+        rw [hdat] at hd
+        simp [dataClause, binClause, hc] at hd
+        exact ⟨b, rfl, hd.2⟩
+  · simp [classOf, hc] at hcl
+
+theorem encodeAttr_ok (a : Attribute) (h : WF a) : ∃ b, encodeAttr a = .ok b := by
+  unfold encodeAttr
+  by_cases h1 : a.code = 1
+  · obtain ⟨v, hv⟩ := wf_val_of_code a h (Or.inl h1)
+    simp [h1, Attribute.value, hv]
+  · by_cases h4 : a.code = 4 ∨ a.code = 5 ∨ a.code = 9
+    · obtain ⟨v, hv⟩ := wf_val_of_code a h (Or.inr h4)
+      simp [h1, h4, Attribute.value, hv]
+    · obtain ⟨b, hb⟩ := wf_binary_of_code a h (by omega)
+      simp [h1, h4, hb]
+
+theorem asPathLength_ok (a : Attribute) (h : WF a) (hc : a.code = 2) : ∃ n, asPathLength a = .ok n := by
+  obtain ⟨b, hb, hs⟩ := wf_aspath a h hc
+  obtain ⟨n, hn⟩ := asPathLengthLoop_ok b 0 hs
+  exact ⟨n, by simp [asPathLength, hc, Attribute.binary, hb, hn]⟩
+
+theorem asPathOrigin_ok (a : Attribute) (h : WF a) (hc : a.code = 2) : ∃ r, asPathOrigin a = .ok r := by
+  obtain ⟨b, hb, hs⟩ := wf_aspath a h hc
+  obtain ⟨r, hr⟩ := asPathOriginLoop_ok b (0, 0, 0) hs
+  unfold asPathOrigin
+  simp only [Attribute.binary, hb, unwrapO_some, Out.bind_ok']
+  split
+  · exact ⟨none, rfl⟩
+  · simp [hr]
+
+theorem asPathPrepend_ok (a : Attribute) (asn : Nat) (h : WF a) (hc : a.code = 2) :
+    ∃ a', asPathPrepend a asn = .ok a' ∧ ∃ b, a'.binary = some b := by
+  obtain ⟨b, hb, hs⟩ := wf_aspath a h hc
+  unfold asPathPrepend
+  simp only [hc, ne_eq, not_true_eq_false, if_false, Attribute.binary, hb, unwrapO_some, Out.bind_ok']
+  match b, hs with
+  | [], _ => exact ⟨_, rfl, _, rfl⟩
+  | [x], hs => simp [segsOk] at hs
+  | t :: l :: rest, _ =>
+      simp only [Out.pure_eq]
+      split
+      · exact ⟨_, rfl, t :: (l + 1) :: (beN 4 asn ++ rest), rfl⟩
+      · exact ⟨_, rfl, 2 :: 1 :: (beN 4 asn ++ t :: l :: rest), rfl⟩
+
+theorem encode2Use_ok (a : Attribute) (h : WF a) : encode2Use a = .ok () := by
+  unfold encode2Use
+  by_cases h2 : a.code = 2
+  · obtain ⟨b, hb, hs⟩ := wf_aspath a h h2
+    obtain ⟨d, hd⟩ := downgrade2_ok b hs
+    obtain ⟨w, hw⟩ := hasWide_ok b hs
+    obtain ⟨s, hs'⟩ := stripConfed_ok b hs
+    rw [if_pos h2]
+    simp only [Attribute.binary, hb, unwrapO_some, Out.bind_ok', hd, hw]
+    have e1 : ∃ x, encodeAttr { a with data := .bin d, flags := 0x40 } = .ok x := by
+      simp [encodeAttr, h2, Attribute.binary]
+    obtain ⟨x, hx⟩ := e1
+    simp only [hx, Out.bind_ok']
+    cases w with
+    | false => simp
+    | true =>
+        simp only [if_true, hs', Out.bind_ok']
+        have e2 : ∃ y, encodeAttr { code := 17, flags := 0xC0, data := .bin s } = .ok y := by
+          simp [encodeAttr, Attribute.binary]
+        obtain ⟨y, hy⟩ := e2
+        simp [hy]
+  · by_cases h7 : a.code = 7
+    · obtain ⟨b, hb, hl⟩ := wf_aggregator a h h7
+      simp [h2, h7, Attribute.binary, hb, hl]
+    · obtain ⟨b, hb⟩ := encodeAttr_ok a h
+      simp [h2, h7, hb]
+theorem wf_originIgp : WF originIgp := by
+  simp [WF, wfClause, originIgp, classOf, flagsOk, valClause]
+
+theorem wf_baseAsPath : WF baseAsPath := by
+  simp [WF, wfClause, baseAsPath, classOf, flagsOk, binClause, Spec.isBytes, beN, Spec.segments]
+
+theorem pathAttrs_wf (a : Attribute) (h : WF a) : ∀ x ∈ pathAttrs a, WF x := by
+  intro x hx
+  simp only [pathAttrs, List.mem_append, List.mem_singleton] at hx
+  rcases hx with (rfl | hx) | hx
+  · exact h
+  · split at hx
+    · simp at hx
+    · simp only [List.mem_singleton] at hx; subst hx; exact wf_originIgp
+  · split at hx
+    · simp at hx
+    · simp only [List.mem_singleton] at hx; subst hx; exact wf_baseAsPath
+
+theorem findCode_some (c : Nat) (L : List Attribute) (x : Attribute) (h : findCode c L = some x) :
+    x ∈ L ∧ x.code = c := by
+  unfold findCode at h
+  have := List.find?_some h
+  exact ⟨List.mem_of_find?_eq_some h, by simpa using this⟩
+
+theorem needVal_ok (c : Nat) (hc : c = 1 ∨ c = 4 ∨ c = 5 ∨ c = 9) (L : List Attribute)
+    (h : ∀ x ∈ L, WF x) : needVal c L = .ok () := by
+  unfold needVal
+  cases hf : findCode c L with
+  | none => rfl
+  | some x =>
+      obtain ⟨hm, hcx⟩ := findCode_some c L x hf
+      obtain ⟨v, hv⟩ := wf_val_of_code x (h x hm) (by rw [hcx]; exact hc)
+      simp [Attribute.value, hv]
+
+theorem needLen_ok (L : List Attribute) (h : ∀ x ∈ L, WF x) : needLen L = .ok () := by
+  unfold needLen
+  cases hf : findCode 2 L with
+  | none => rfl
+  | some x =>
+      obtain ⟨hm, hcx⟩ := findCode_some 2 L x hf
+      obtain ⟨n, hn⟩ := asPathLength_ok x (h x hm) hcx
+      simp [hn]
+
+theorem cmpUse_ok (L : List Attribute) (h : ∀ x ∈ L, WF x) : cmpUse L = .ok () := by
+  unfold cmpUse
+  simp [needVal_ok 5 (by omega) L h, needLen_ok L h, needVal_ok 1 (by omega) L h,
+    needVal_ok 9 (by omega) L h]
+
+theorem polUse_ok (L : List Attribute) (h : ∀ x ∈ L, WF x) : ∃ b, polUse L = .ok b := by
+  unfold polUse
+  cases hf : findCode 2 L with
+  | none => exact ⟨_, rfl⟩
+  | some x =>
+      obtain ⟨hm, hcx⟩ := findCode_some 2 L x hf
+      obtain ⟨n, hn⟩ := asPathLength_ok x (h x hm) hcx
+      obtain ⟨a', ha', b, hb⟩ := asPathPrepend_ok x 65000 (h x hm) hcx
+      exact ⟨b, by simp [hn, ha', hb]⟩
+
+theorem runAll_ok {α β} (f : α → Out β) (L : List α) (h : ∀ x ∈ L, ∃ b, f x = .ok b) :
+    runAll f L = .ok () := by
+  induction L with
+  | nil => rfl
+  | cons x xs ih =>
+      obtain ⟨b, hb⟩ := h x (by simp)
+      simp only [runAll, hb]
+      exact ih (fun y hy => h y (List.mem_cons_of_mem _ hy))
+
+/-- **wf_safe**: a well-formed attribute stored in a path never makes best-path comparison, policy
+    evaluation, `as_path_length`/`as_path_origin` or either UPDATE encoder panic. -/
+theorem wf_safe (a : Attribute) (h : WF a) : (useOf a).noPanic = true := by
+  have hall := pathAttrs_wf a h
+  obtain ⟨e, he⟩ := encodeAttr_ok a h
+  obtain ⟨p, hp⟩ := polUse_ok _ hall
+  have hc := cmpUse_ok _ hall
+  have h4 := runAll_ok encodeAttr _ (fun x hx => encodeAttr_ok x (hall x hx))
+  have h2 := runAll_ok encode2Use _ (fun x hx => ⟨(), encode2Use_ok x (hall x hx)⟩)
+  unfold useOf Use.noPanic
+  simp only [he, hp, hc, h4, h2, Out.isPanic]
+  by_cases h2c : a.code = 2
+  · obtain ⟨n, hn⟩ := asPathLength_ok a h h2c
+    obtain ⟨r, hr⟩ := asPathOrigin_ok a h h2c
+    simp [h2c, hn, hr, Out.isPanic]
+  · simp [h2c]
+
+/-! ## NLRI -/
+
+theorem rd_roundtrip (rd : Rd) (h : rdOk rd = true) : rdFromApi (rdToApi rd) = some rd := by
+  cases rd <;> simp [rdOk] at h <;> simp [rdToApi, rdFromApi, AStr.parse4] <;> omega
+
+theorem map_mod_id (ls : List Nat) (h : ∀ l ∈ ls, l < 1048576) : ls.map (· % 1048576) = ls := by
+  induction ls with
+  | nil => rfl
+  | cons x xs ih =>
+      simp only [List.map_cons]
+      rw [Nat.mod_eq_of_lt (h x (by simp)), ih (fun l hl => h l (List.mem_cons_of_mem _ hl))]
+
+/-- **roundtrip_nlri** -/
+theorem roundtrip_nlri (n : Nlri) (h : WFN n) : netFromApi current (nlriToApi n) = .ok n := by
+  cases n with
+  | v4 a m =>
+      simp [WFN, nlriClause] at h
+      simp [nlriToApi, netFromApi]; omega
+  | v6 a m =>
+      simp [WFN, nlriClause] at h
+      simp [nlriToApi, netFromApi]; omega
+  | lv4 ls a m =>
+      simp [WFN, nlriClause, labelsOk] at h
+      obtain ⟨h1, h2, ⟨h3, h4⟩, h5⟩ := h
+      simp only [nlriToApi, netFromApi, map_mod_id ls h4, current]
+      rw [if_neg (by intro hc; obtain ⟨_, hc⟩ := hc; omega), Nat.mod_eq_of_lt (by omega)]
+  | lv6 ls a m =>
+      simp [WFN, nlriClause, labelsOk] at h
+      obtain ⟨h1, h2, ⟨h3, h4⟩, h5⟩ := h
+      simp only [nlriToApi, netFromApi, map_mod_id ls h4, current]
+      rw [if_neg (by intro hc; obtain ⟨_, hc⟩ := hc; omega), Nat.mod_eq_of_lt (by omega)]
+  | vpn4 ls rd a m =>
+      simp [WFN, nlriClause, labelsOk] at h
+      obtain ⟨h1, h2, ⟨⟨h3, h4⟩, h5⟩, h6⟩ := h
+      simp only [nlriToApi, netFromApi, map_mod_id ls h4, current, rd_roundtrip rd h6]
+      rw [if_neg (by intro hc; obtain ⟨_, hc⟩ := hc; omega), Nat.mod_eq_of_lt (by omega)]
+  | vpn6 ls rd a m =>
+      simp [WFN, nlriClause, labelsOk] at h
+      obtain ⟨h1, h2, ⟨⟨h3, h4⟩, h5⟩, h6⟩ := h
+      simp only [nlriToApi, netFromApi, map_mod_id ls h4, current, rd_roundtrip rd h6]
+      rw [if_neg (by intro hc; obtain ⟨_, hc⟩ := hc; omega), Nat.mod_eq_of_lt (by omega)]
+theorem pow4 : (256 : Nat) ^ 4 = 2 ^ 32 := by decide
+theorem pow16 : (256 : Nat) ^ 16 = 2 ^ 128 := by decide
+
+theorem replicate_allB (n : Nat) : AllB (List.replicate n 0) := by
+  intro b hb
+  have := List.eq_of_mem_replicate hb
+  omega
+
+theorem padAddr_lt (w : Nat) (bs : Bytes) (hb : AllB bs) (hl : bs.length ≤ w) : padAddr w bs < 256 ^ w := by
+  unfold padAddr
+  have h := ofBe_lt (bs ++ List.replicate (w - bs.length) 0) (AllB.append hb (replicate_allB _))
+  have hlen : (bs ++ List.replicate (w - bs.length) 0).length = w := by
+    simp only [List.length_append, List.length_replicate]; omega
+  rw [hlen] at h
+  exact h
+
+theorem ceil8_le (w bits : Nat) (h : bits ≤ w * 8) : ceil8 bits ≤ w := by
+  unfold ceil8; omega
+
+theorem decPrefix_ok (w bits : Nat) (bs : Bytes) (a : Nat) (rest : Bytes) (hb : AllB bs)
+    (h : decPrefix w bits bs = .ok (a, rest)) : bits ≤ w * 8 ∧ a < 256 ^ w ∧ AllB rest := by
+  unfold decPrefix at h
+  split at h
+  · simp at h
+  · rename_i hc
+    simp only [Out.ok.injEq, Prod.mk.injEq] at h
+    obtain ⟨rfl, rfl⟩ := h
+    have hle : bits ≤ w * 8 := by omega
+    refine ⟨hle, padAddr_lt w _ (hb.take _) ?_, hb.drop _⟩
+    have := ceil8_le w bits hle
+    simp only [List.length_take]; omega
+
+theorem label_lt (a b c : Nat) (hb : AllB [a, b, c]) : ofBe [a, b, c] / 16 < 1048576 := by
+  have := ofBe_lt [a, b, c] hb
+  simp only [List.length_cons, List.length_nil] at this
+  omega
+
+theorem decLabels_ok : ∀ (bs : Bytes) (ls : List Nat) (rest : Bytes), AllB bs →
+    decLabels bs = some (ls, rest) → labelsOk ls = true ∧ AllB rest
+  | [], _, _, _, h => by simp [decLabels] at h
+  | [_], _, _, _, h => by simp [decLabels] at h
+  | [_, _], _, _, _, h => by simp [decLabels] at h
+  | a :: b :: c :: tl, ls, rest, hb, h => by
+      have h3 : AllB [a, b, c] := fun x hx => hb x (by
+        simp only [List.mem_cons, List.not_mem_nil, or_false] at hx
+        rcases hx with h | h | h <;> simp [h])
+      have hl := label_lt a b c h3
+      have htl : AllB tl := hb.tail.tail.tail
+      by_cases hbos : c % 2 = 1
+      · simp only [decLabels, hbos, if_true, Option.some.injEq, Prod.mk.injEq] at h
+        obtain ⟨rfl, rfl⟩ := h
+        refine ⟨?_, htl⟩
+        simp only [labelsOk, List.length_singleton, List.all_cons, List.all_nil, Bool.and_true,
+          Bool.and_eq_true, decide_eq_true_eq]
+        omega
+      · simp only [decLabels, hbos, if_false] at h
+        cases hd : decLabels tl with
+        | none => simp [hd] at h
+        | some r =>
+            obtain ⟨ls', rest'⟩ := r
+            simp only [hd, Option.map_some, Option.some.injEq, Prod.mk.injEq] at h
+            obtain ⟨rfl, rfl⟩ := h
+            obtain ⟨h1, h2⟩ := decLabels_ok tl ls' rest' htl hd
+            refine ⟨?_, h2⟩
+            simp only [labelsOk, Bool.and_eq_true, decide_eq_true_eq, List.all_eq_true] at h1 ⊢
+            refine ⟨by simp, ?_⟩
+            intro x hx
+            rcases List.mem_cons.mp hx with rfl | hx
+            · omega
+            · exact h1.2 x hx
+theorem decRd_ok (bs : Bytes) (rd : Rd) (hb : AllB bs) (h : decRd bs = some rd) : rdOk rd = true := by
+  unfold decRd at h
+  match bs, hb, h with
+  | [t0, t1, a, b, c, d, e, f], hb, h =>
+      have m : ∀ x ∈ [t0, t1, a, b, c, d, e, f], x < 256 := hb
+      have h2 : ∀ x y, x ∈ [t0, t1, a, b, c, d, e, f] → y ∈ [t0, t1, a, b, c, d, e, f] → ofBe [x, y] < 65536 := by
+        intro x y hx hy
+        have := ofBe_lt [x, y] (fun z hz => by
+          simp only [List.mem_cons, List.not_mem_nil, or_false] at hz
+          rcases hz with rfl | rfl
+          · exact m _ hx
+          · exact m _ hy)
+        simpa using this
+      have h4 : ∀ x y z w, x ∈ [t0, t1, a, b, c, d, e, f] → y ∈ [t0, t1, a, b, c, d, e, f] →
+          z ∈ [t0, t1, a, b, c, d, e, f] → w ∈ [t0, t1, a, b, c, d, e, f] → ofBe [x, y, z, w] < 4294967296 := by
+        intro x y z w hx hy hz hw
+        have := ofBe_lt [x, y, z, w] (fun v hv => by
+          simp only [List.mem_cons, List.not_mem_nil, or_false] at hv
+          rcases hv with rfl | rfl | rfl | rfl
+          · exact m _ hx
+          · exact m _ hy
+          · exact m _ hz
+          · exact m _ hw)
+        simpa using this
+      simp only at h
+      split at h
+      · simp only [Option.some.injEq] at h; subst h
+        simp only [rdOk, Bool.and_eq_true, decide_eq_true_eq]
+        exact ⟨h2 a b (by simp) (by simp), h4 c d e f (by simp) (by simp) (by simp) (by simp)⟩
+      · split at h
+        · simp only [Option.some.injEq] at h; subst h
+          simp only [rdOk, Bool.and_eq_true, decide_eq_true_eq]
+          exact ⟨h4 a b c d (by simp) (by simp) (by simp) (by simp), h2 e f (by simp) (by simp)⟩
+        · split at h
+          · simp only [Option.some.injEq] at h; subst h
+            simp only [rdOk, Bool.and_eq_true, decide_eq_true_eq]
+            exact ⟨h4 a b c d (by simp) (by simp) (by simp) (by simp), h2 e f (by simp) (by simp)⟩
+          · simp at h
+
+/-- label stacks short enough that the `u8` bit arithmetic of labeled.rs does not wrap
+    (`(stack.encoded_len() * 8) as u8`; vpn.rs no longer wraps since the C03 repair dd9ba2a) -/
+def noWrap : Nlri → Prop
+  | .v4 .. => True
+  | .v6 .. => True
+  | .lv4 ls _ _ => ls.length * 24 < 256
+  | .lv6 ls _ _ => ls.length * 24 < 256
+  | .vpn4 .. => True
+  | .vpn6 .. => True
+
+theorem decodePlain_ok (w : Nat) (bs : Bytes) (a m : Nat) (rest : Bytes) (hb : AllB bs)
+    (h : decodePlain w bs = .ok (a, m, rest)) : m ≤ w * 8 ∧ a < 256 ^ w ∧ AllB rest := by
+  unfold decodePlain at h
+  match bs, hb, h with
+  | bits :: tl, hb, h =>
+      simp only at h
+      cases hp : decPrefix w bits tl with
+      | ok r =>
+          obtain ⟨a', rest'⟩ := r
+          simp only [hp, Out.ok.injEq, Prod.mk.injEq] at h
+          obtain ⟨rfl, rfl, rfl⟩ := h
+          exact decPrefix_ok w _ tl _ _ hb.tail hp
+      | err => simp [hp] at h
+      | panic => simp [hp] at h
+
+theorem decodeLabeled_ok (w : Nat) (bs : Bytes) (ls : List Nat) (a m : Nat) (rest : Bytes) (hb : AllB bs)
+    (h : decodeLabeled w bs = .ok (ls, a, m, rest)) (hw : ls.length * 24 < 256) :
+    m ≤ w * 8 ∧ a < 256 ^ w ∧ labelsOk ls = true ∧ ls.length * 24 + m ≤ 255 ∧ AllB rest := by
+  unfold decodeLabeled at h
+  match bs, hb, h with
+  | total :: tl, hb, h =>
+      simp only at h
+      split at h
+      · simp at h
+      · cases hd : decLabels tl with
+        | none => simp [hd] at h
+        | some r =>
+            obtain ⟨ls', rest'⟩ := r
+            simp only [hd] at h
+            split at h
+            · simp at h
+            · rename_i hge
+              obtain ⟨hl, hr⟩ := decLabels_ok tl ls' rest' hb.tail hd
+              cases hp : decPrefix w (total - ls'.length * 24 % 256) rest' with
+              | ok r2 =>
+                  obtain ⟨a', rest''⟩ := r2
+                  simp only [hp, Out.ok.injEq, Prod.mk.injEq] at h
+                  obtain ⟨rfl, rfl, rfl, rfl⟩ := h
+                  obtain ⟨p1, p2, p3⟩ := decPrefix_ok w _ rest' _ _ hr hp
+                  have ht : total < 256 := hb.head
+                  have hmod : ls'.length * 24 % 256 = ls'.length * 24 := Nat.mod_eq_of_lt hw
+                  refine ⟨p1, p2, hl, ?_, p3⟩
+                  rw [hmod] at hge ⊢
+                  omega
+              | err => simp [hp] at h
+              | panic => simp [hp] at h
+
+theorem decodeVpn_ok (w : Nat) (bs : Bytes) (ls : List Nat) (rd : Rd) (a m : Nat) (rest : Bytes)
+    (hb : AllB bs) (h : decodeVpn w bs = .ok (ls, rd, a, m, rest)) :
+    m ≤ w * 8 ∧ a < 256 ^ w ∧ labelsOk ls = true ∧ ls.length * 24 + 64 + m ≤ 255 ∧ rdOk rd = true ∧
+      AllB rest := by
+  unfold decodeVpn at h
+  match bs, hb, h with
+  | total :: tl, hb, h =>
+      simp only at h
+      split at h
+      · simp at h
+      · cases hd : decLabels tl with
+        | none => simp [hd] at h
+        | some r =>
+            obtain ⟨ls', rest'⟩ := r
+            simp only [hd] at h
+            obtain ⟨hl, hr⟩ := decLabels_ok tl ls' rest' hb.tail hd
+            split at h
+            · simp at h
+            · rename_i hge
+              split at h
+              · simp at h
+              · cases hrd : decRd (rest'.take 8) with
+                | none => simp [hrd] at h
+                | some rd' =>
+                    simp only [hrd] at h
+                    cases hp : decPrefix w (total - ls'.length * 24 - 64) (rest'.drop 8) with
+                    | ok r2 =>
+                        obtain ⟨a', rest''⟩ := r2
+                        simp only [hp, Out.ok.injEq, Prod.mk.injEq] at h
+                        obtain ⟨rfl, rfl, rfl, rfl, rfl⟩ := h
+                        obtain ⟨p1, p2, p3⟩ := decPrefix_ok w _ _ _ _ (hr.drop _) hp
+                        have ht : total < 256 := hb.head
+                        refine ⟨p1, p2, hl, ?_, decRd_ok _ _ (hr.take _) hrd, p3⟩
+                        omega
+                    | err => simp [hp] at h
+                    | panic => simp [hp] at h
+
+/-- **decode_wf (NLRI)**: a prefix produced by the wire decoders satisfies `WFN`
+    (as long as the label stack does not wrap the one-octet bit count, S7). -/
+theorem decodeOne_wf (f : Fam) (bs : Bytes) (n : Nlri) (rest : Bytes) (hb : AllB bs)
+    (h : decodeOne f bs = .ok (n, rest)) (hw : noWrap n) : WFN n ∧ AllB rest := by
+  cases f with
+  | v4 =>
+      simp only [decodeOne] at h
+      cases hd : decodePlain 4 bs with
+      | ok r =>
+          obtain ⟨a, m, rest'⟩ := r
+          simp only [hd, Out.map_ok, Out.ok.injEq, Prod.mk.injEq] at h
+          obtain ⟨rfl, rfl⟩ := h
+          obtain ⟨h1, h2, h3⟩ := decodePlain_ok 4 bs a m rest' hb hd
+          rw [pow4] at h2
+          exact ⟨by simp [WFN, nlriClause]; omega, h3⟩
+      | err => simp [hd, Out.map] at h
+      | panic => simp [hd, Out.map] at h
+  | v6 =>
+      simp only [decodeOne] at h
+      cases hd : decodePlain 16 bs with
+      | ok r =>
+          obtain ⟨a, m, rest'⟩ := r
+          simp only [hd, Out.map_ok, Out.ok.injEq, Prod.mk.injEq] at h
+          obtain ⟨rfl, rfl⟩ := h
+          obtain ⟨h1, h2, h3⟩ := decodePlain_ok 16 bs a m rest' hb hd
+          rw [pow16] at h2
+          exact ⟨by simp [WFN, nlriClause]; omega, h3⟩
+      | err => simp [hd, Out.map] at h
+      | panic => simp [hd, Out.map] at h
+  | lv4 =>
+      simp only [decodeOne] at h
+      cases hd : decodeLabeled 4 bs with
+      | ok r =>
+          obtain ⟨ls, a, m, rest'⟩ := r
+          simp only [hd, Out.map_ok, Out.ok.injEq, Prod.mk.injEq] at h
+          obtain ⟨rfl, rfl⟩ := h
+          obtain ⟨h1, h2, h3, h4, h5⟩ := decodeLabeled_ok 4 bs ls a m rest' hb hd hw
+          rw [pow4] at h2
+          exact ⟨by simp [WFN, nlriClause, h3]; omega, h5⟩
+      | err => simp [hd, Out.map] at h
+      | panic => simp [hd, Out.map] at h
+  | lv6 =>
+      simp only [decodeOne] at h
+      cases hd : decodeLabeled 16 bs with
+      | ok r =>
+          obtain ⟨ls, a, m, rest'⟩ := r
+          simp only [hd, Out.map_ok, Out.ok.injEq, Prod.mk.injEq] at h
+          obtain ⟨rfl, rfl⟩ := h
+          obtain ⟨h1, h2, h3, h4, h5⟩ := decodeLabeled_ok 16 bs ls a m rest' hb hd hw
+          rw [pow16] at h2
+          exact ⟨by simp [WFN, nlriClause, h3]; omega, h5⟩
+      | err => simp [hd, Out.map] at h
+      | panic => simp [hd, Out.map] at h
+  | vpn4 =>
+      simp only [decodeOne] at h
+      cases hd : decodeVpn 4 bs with
+      | ok r =>
+          obtain ⟨ls, rd, a, m, rest'⟩ := r
+          simp only [hd, Out.map_ok, Out.ok.injEq, Prod.mk.injEq] at h
+          obtain ⟨rfl, rfl⟩ := h
+          obtain ⟨h1, h2, h3, h4, h5, h6⟩ := decodeVpn_ok 4 bs ls rd a m rest' hb hd
+          rw [pow4] at h2
+          exact ⟨by simp [WFN, nlriClause, h3, h5]; omega, h6⟩
+      | err => simp [hd, Out.map] at h
+      | panic => simp [hd, Out.map] at h
+  | vpn6 =>
+      simp only [decodeOne] at h
+      cases hd : decodeVpn 16 bs with
+      | ok r =>
+          obtain ⟨ls, rd, a, m, rest'⟩ := r
+          simp only [hd, Out.map_ok, Out.ok.injEq, Prod.mk.injEq] at h
+          obtain ⟨rfl, rfl⟩ := h
+          obtain ⟨h1, h2, h3, h4, h5, h6⟩ := decodeVpn_ok 16 bs ls rd a m rest' hb hd
+          rw [pow16] at h2
+          exact ⟨by simp [WFN, nlriClause, h3, h5]; omega, h6⟩
+      | err => simp [hd, Out.map] at h
+      | panic => simp [hd, Out.map] at h
+theorem rdFromApi_ok (r : ApiRd) (rd : Rd) (hr : r.inRange = true) (h : rdFromApi r = some rd) :
+    rdOk rd = true := by
+  cases r with
+  | missing => simp [rdFromApi] at h
+  | twoOctet a b =>
+      simp only [rdFromApi] at h
+      split at h
+      · simp at h
+      · simp only [Option.some.injEq] at h; subst h
+        simp only [ApiRd.inRange, u32, Bool.and_eq_true, decide_eq_true_eq] at hr
+        simp only [rdOk, Bool.and_eq_true, decide_eq_true_eq]; omega
+  | ip4 a b =>
+      cases a with
+      | ip4 n =>
+          simp only [rdFromApi, AStr.parse4] at h
+          split at h
+          · simp at h
+          · simp only [Option.some.injEq] at h; subst h
+            simp only [ApiRd.inRange, AStr.inRange, u32, Bool.and_eq_true, decide_eq_true_eq] at hr
+            simp only [rdOk, Bool.and_eq_true, decide_eq_true_eq]; omega
+      | ip6 n => simp [rdFromApi, AStr.parse4] at h
+      | bad k => simp [rdFromApi, AStr.parse4] at h
+  | fourOctet a b =>
+      simp only [rdFromApi] at h
+      split at h
+      · simp at h
+      · simp only [Option.some.injEq] at h; subst h
+        simp only [ApiRd.inRange, u32, Bool.and_eq_true, decide_eq_true_eq] at hr
+        simp only [rdOk, Bool.and_eq_true, decide_eq_true_eq]; omega
+
+theorem labels_mod_ok (labels : List Nat) (h : (labels.map (· % 1048576)).length ≠ 0) :
+    labelsOk (labels.map (· % 1048576)) = true := by
+  simp only [labelsOk, Bool.and_eq_true, decide_eq_true_eq, List.all_eq_true]
+  refine ⟨by omega, ?_⟩
+  intro x hx
+  rcases List.mem_map.mp hx with ⟨y, _, rfl⟩
+  exact Nat.mod_lt _ (by omega)
+
+/-- **from_api_wf (NLRI)**: whatever `net_from_api` accepts (modelled kinds) satisfies `WFN`. -/
+theorem nlri_from_api_wf (x : ApiNlri) (n : Nlri) (hr : x.inRange = true)
+    (h : netFromApi current x = .ok n) : WFN n := by
+  cases x with
+  | missing => simp [netFromApi] at h
+  | other => simp [netFromApi] at h
+  | «prefix» s len =>
+      cases s with
+      | ip4 a =>
+          simp only [netFromApi] at h
+          split at h
+          · simp at h
+          · simp only [Out.ok.injEq] at h; subst h
+            simp only [ApiNlri.inRange, AStr.inRange, u32, Bool.and_eq_true, decide_eq_true_eq] at hr
+            simp [WFN, nlriClause]; omega
+      | ip6 a =>
+          simp only [netFromApi] at h
+          split at h
+          · simp at h
+          · simp only [Out.ok.injEq] at h; subst h
+            simp only [ApiNlri.inRange, AStr.inRange, u32, Bool.and_eq_true, decide_eq_true_eq] at hr
+            simp [WFN, nlriClause]; omega
+      | bad k => simp [netFromApi] at h
+  | labeled labels len s =>
+      cases s with
+      | bad k => simp [netFromApi] at h
+      | ip4 a =>
+          simp only [netFromApi, current, true_and] at h
+          split at h
+          · simp at h
+          · rename_i hc
+            simp only [Out.ok.injEq] at h; subst h
+            simp only [ApiNlri.inRange, AStr.inRange, u32, Bool.and_eq_true, decide_eq_true_eq] at hr
+            have hm : len % 256 = len := Nat.mod_eq_of_lt (by omega)
+            have hl := labels_mod_ok labels (by omega)
+            simp only [WFN, nlriClause, hm, hl, need_eq_none, Bool.and_eq_true, decide_eq_true_eq,
+              Bool.true_and, and_true]
+            omega
+      | ip6 a =>
+          simp only [netFromApi, current, true_and] at h
+          split at h
+          · simp at h
+          · rename_i hc
+            simp only [Out.ok.injEq] at h; subst h
+            simp only [ApiNlri.inRange, AStr.inRange, u32, Bool.and_eq_true, decide_eq_true_eq] at hr
+            have hm : len % 256 = len := Nat.mod_eq_of_lt (by omega)
+            have hl := labels_mod_ok labels (by omega)
+            simp only [WFN, nlriClause, hm, hl, need_eq_none, Bool.and_eq_true, decide_eq_true_eq,
+              Bool.true_and, and_true]
+            omega
+  | vpn labels rd len s =>
+      simp only [netFromApi] at h
+      cases rd with
+      | none => simp at h
+      | some r =>
+          simp only at h
+          cases hrd : rdFromApi r with
+          | none => simp [hrd] at h
+          | some rd' =>
+              simp only [hrd] at h
+              simp only [ApiNlri.inRange, u32, Bool.and_eq_true, decide_eq_true_eq] at hr
+              have hrdok := rdFromApi_ok r rd' hr.1.1.2 hrd
+              cases s with
+              | bad k => simp at h
+              | ip4 a =>
+                  simp only [current, true_and] at h
+                  split at h
+                  · simp at h
+                  · rename_i hc
+                    simp only [Out.ok.injEq] at h; subst h
+                    have ha := hr.2
+                    simp only [AStr.inRange, u32, decide_eq_true_eq] at ha
+                    have hm : len % 256 = len := Nat.mod_eq_of_lt (by omega)
+                    have hl := labels_mod_ok labels (by omega)
+                    simp only [WFN, nlriClause, hm, hl, hrdok, need_eq_none, Bool.and_eq_true,
+                      decide_eq_true_eq, Bool.true_and, and_true]
+                    omega
+              | ip6 a =>
+                  simp only [current, true_and] at h
+                  split at h
+                  · simp at h
+                  · rename_i hc
+                    simp only [Out.ok.injEq] at h; subst h
+                    have ha := hr.2
+                    simp only [AStr.inRange, decide_eq_true_eq] at ha
+                    have hm : len % 256 = len := Nat.mod_eq_of_lt (by omega)
+                    have hl := labels_mod_ok labels (by omega)
+                    simp only [WFN, nlriClause, hm, hl, hrdok, need_eq_none, Bool.and_eq_true,
+                      decide_eq_true_eq, Bool.true_and, and_true]
+                    omega
+
+/-- **wf_safe_encode (NLRI)**: `Nlri::encode` of a well-formed prefix does not panic. -/
+theorem nlri_encode_ok (n : Nlri) (h : WFN n) : ∃ b, encodeNlri n = .ok b := by
+  cases n with
+  | v4 a m =>
+      simp [WFN, nlriClause] at h
+      have : ¬ ceil8 m > 4 := by unfold ceil8; omega
+      simp [encodeNlri, encPrefix, this]
+  | v6 a m =>
+      simp [WFN, nlriClause] at h
+      have : ¬ ceil8 m > 16 := by unfold ceil8; omega
+      simp [encodeNlri, encPrefix, this]
+  | lv4 ls a m =>
+      simp [WFN, nlriClause] at h
+      have : ¬ ceil8 m > 4 := by unfold ceil8; omega
+      have h2 : ¬ (ls.length * 24 % 256 + m > 255) := by
+        have := Nat.mod_le (ls.length * 24) 256; omega
+      simp [encodeNlri, encPrefix, addU8, this, h2]
+  | lv6 ls a m =>
+      simp [WFN, nlriClause] at h
+      have : ¬ ceil8 m > 16 := by unfold ceil8; omega
+      have h2 : ¬ (ls.length * 24 % 256 + m > 255) := by
+        have := Nat.mod_le (ls.length * 24) 256; omega
+      simp [encodeNlri, encPrefix, addU8, this, h2]
+  | vpn4 ls rd a m =>
+      simp [WFN, nlriClause] at h
+      have : ¬ ceil8 m > 4 := by unfold ceil8; omega
+      have hle := Nat.mod_le (ls.length * 24) 256
+      have h2 : ¬ (ls.length * 24 % 256 + 64 > 255) := by omega
+      have h3 : ¬ (ls.length * 24 % 256 + 64 + m > 255) := by omega
+      simp [encodeNlri, encPrefix, addU8, this, h2, h3]
+  | vpn6 ls rd a m =>
+      simp [WFN, nlriClause] at h
+      have : ¬ ceil8 m > 16 := by unfold ceil8; omega
+      have hle := Nat.mod_le (ls.length * 24) 256
+      have h2 : ¬ (ls.length * 24 % 256 + 64 > 255) := by omega
+      have h3 : ¬ (ls.length * 24 % 256 + 64 + m > 255) := by omega
+      simp [encodeNlri, encPrefix, addU8, this, h2, h3]
+
+/-! ## the reference checker accepts every run of the model -/
+
+theorem crashed_none (u : Use) (h : u.noPanic = true) : crashed u = none := by
+  obtain ⟨len, origin, enc, cmp, pol, m4, m2⟩ := u
+  simp only [Use.noPanic, Bool.and_eq_true, Bool.not_eq_true'] at h
+  obtain ⟨⟨⟨⟨⟨⟨h1, h2⟩, h3⟩, h4⟩, h5⟩, h6⟩, h7⟩ := h
+  have e3 : enc ≠ .panic := by cases enc <;> simp [Out.isPanic] at h3 ⊢
+  have e4 : cmp ≠ .panic := by cases cmp <;> simp [Out.isPanic] at h4 ⊢
+  have e5 : pol ≠ .panic := by cases pol <;> simp [Out.isPanic] at h5 ⊢
+  have e6 : m4 ≠ .panic := by cases m4 <;> simp [Out.isPanic] at h6 ⊢
+  have e7 : m2 ≠ .panic := by cases m2 <;> simp [Out.isPanic] at h7 ⊢
+  unfold crashed
+  rcases len with _ | (_ | _ | _) <;> rcases origin with _ | (_ | _ | _) <;>
+    simp_all [Out.isPanic]
+
+/-- a value that is well-formed, round-trips and is stored in the model's observation passes `checkAttr` -/
+theorem checkAttr_ok (stream : String) (a : Attribute) (hwf : WF a) (hrt : RT current a) :
+    checkAttr stream (attrObs current a) = .ok := by
+  obtain ⟨x, hx1, hx2⟩ := hrt
+  have hc := crashed_none (useOf a) (wf_safe a hwf)
+  simp only [checkAttr, attrObs, hx1, hx2]
+  simp only [WF] at hwf
+  simp [hwf, seq, roundTrip, hc]
+
+theorem rt_nexthop (b : Bytes) (hb : AllB b) (hl : b.length = 4 ∨ b.length = 16) :
+    RT current ⟨3, 0x40, .bin b⟩ := by
+  rcases hl with hl | hl
+  · refine ⟨.nextHop (.ip4 (ofBe (b.take 4))), by simp [toApi, Attribute.binary, hl], ?_⟩
+    have e : beN 4 (ofBe (b.take 4)) = b := by
+      rw [List.take_of_length_le (by omega)]; exact beN_ofBe' 4 b hl hb
+    simp [fromApi, AStr.parse4, e, newWithBin, canonicalFlags]
+  · refine ⟨.nextHop (.ip6 (ofBe b)), by simp [toApi, Attribute.binary, hl], ?_⟩
+    have e : beN 16 (ofBe b) = b := beN_ofBe' 16 b hl hb
+    simp [fromApi, AStr.parse4, AStr.parse6, e, newWithBin, canonicalFlags]
+
+/-- codes `attr_from_api` can produce, and the shape of an accepted NEXT_HOP -/
+theorem from_api_code (x : ApiAttr) (a : Attribute) (h : fromApi current x = .ok a) :
+    a.code ≠ 17 ∧ a.code ≠ 18 ∧
+      (a.code = 3 → ∃ b, a = ⟨3, 0x40, .bin b⟩ ∧ AllB b ∧ (b.length = 4 ∨ b.length = 16)) := by
+  cases x with
+  | missing => simp [fromApi] at h
+  | other => simp [fromApi] at h
+  | origin o =>
+      simp only [fromApi] at h
+      split at h
+      · simp at h
+      · simp [newWithValue, canonicalFlags] at h; subst h; simp
+  | med m => simp [fromApi, newWithValue, canonicalFlags] at h; subst h; simp
+  | localPref m => simp [fromApi, newWithValue, canonicalFlags] at h; subst h; simp
+  | atomicAggregate => simp [fromApi, newWithBin, canonicalFlags] at h; subst h; simp
+  | nextHop s =>
+      simp only [fromApi, current] at h
+      cases s with
+      | ip4 n =>
+          simp [AStr.parse4, newWithBin, canonicalFlags] at h; subst h
+          exact ⟨by simp, by simp, fun _ => ⟨_, rfl, beN_lt 4 n, Or.inl (beN_length 4 n)⟩⟩
+      | ip6 n =>
+          simp [AStr.parse4, AStr.parse6, newWithBin, canonicalFlags] at h; subst h
+          exact ⟨by simp, by simp, fun _ => ⟨_, rfl, beN_lt 16 n, Or.inr (beN_length 16 n)⟩⟩
+      | bad k => simp [AStr.parse4, AStr.parse6] at h
+  | aggregator asn addr =>
+      simp only [fromApi] at h
+      cases addr with
+      | ip4 n => simp [AStr.parse4, newWithBin, canonicalFlags] at h; subst h; simp
+      | ip6 n => simp [AStr.parse4] at h
+      | bad k => simp [AStr.parse4] at h
+  | communities l => simp [fromApi, newWithBin, canonicalFlags] at h; subst h; simp
+  | originatorId s =>
+      simp only [fromApi] at h
+      cases s with
+      | ip4 n => simp [AStr.parse4, newWithValue, canonicalFlags] at h; subst h; simp
+      | ip6 n => simp [AStr.parse4] at h
+      | bad k => simp [AStr.parse4] at h
+  | clusterList ids =>
+      simp only [fromApi] at h
+      split at h
+      · simp at h
+      · simp [newWithBin, canonicalFlags] at h; subst h; simp
+  | largeCommunities l => simp [fromApi, newWithBin, canonicalFlags] at h; subst h; simp
+  | extCommunities l =>
+      simp only [fromApi] at h
+      split at h
+      · simp at h
+      · simp [newWithBin, canonicalFlags] at h; subst h; simp
+  | asPath segs =>
+      simp only [fromApi] at h
+      split at h
+      · simp at h
+      · simp [newWithBin, canonicalFlags] at h; subst h; simp
+  | unknown f t v =>
+      simp only [fromApi, current, if_true] at h
+      split at h
+      · simp at h
+      · rename_i hlt
+        have ht : t % 256 = t := Nat.mod_eq_of_lt (by omega)
+        rw [ht] at h
+        split at h
+        · split at h
+          · simp at h
+          · rename_i hty
+            simp only [Out.ok.injEq] at h; subst h
+            simp only [typedCode, decide_eq_true_eq, not_or] at hty
+            obtain ⟨n1, n2, n3, n4, n5, n6, n7, n8, n9, n10, n16, n32, n23, n29, n17, n18⟩ := hty
+            exact ⟨n17, n18, fun h3 => absurd h3 n3⟩
+        · rename_i hcan
+          split at h
+          · simp only [Out.ok.injEq] at h; subst h
+            refine ⟨?_, ?_, ?_⟩ <;> (intro h3; simp only at h3; subst h3; simp [canonicalFlags] at hcan)
+          · simp at h
+theorem from_api_rt (x : ApiAttr) (a : Attribute) (hr : x.inRange = true)
+    (h : fromApi current x = .ok a) (hm : modelledCode a.code = true) : WF a ∧ RT current a := by
+  obtain ⟨hwf, hfc⟩ := from_api_wf x a hr h
+  obtain ⟨n17, n18, h3⟩ := from_api_code x a h
+  refine ⟨hwf, ?_⟩
+  by_cases hc3 : a.code = 3
+  · obtain ⟨b, rfl, hb, hl⟩ := h3 hc3
+    exact rt_nexthop b hb hl
+  · exact roundtrip_attr a hwf hm ⟨hc3, n17, n18⟩ hfc
+
+theorem checkNlri_ok (stream : String) (n : Nlri) (h : WFN n) :
+    checkNlri stream (nlriObs current n) = .ok := by
+  obtain ⟨b, hb⟩ := nlri_encode_ok n h
+  have hrt := roundtrip_nlri n h
+  simp only [WFN] at h
+  simp [checkNlri, nlriObs, h, hrt, hb, seq]
+
+theorem checkAll_ok (stream : String) (l : List Nlri) (h : ∀ n ∈ l, WFN n) :
+    checkAll stream (l.map (nlriObs current)) = .ok := by
+  induction l with
+  | nil => rfl
+  | cons n ns ih =>
+      simp only [List.map_cons, checkAll, checkNlri_ok stream n (h n (by simp)), seq]
+      exact ih (fun m hm => h m (List.mem_cons_of_mem _ hm))
+
+theorem decodeList_wf (f : Fam) (fuel : Nat) (bs : Bytes) (l : List Nlri) (hb : AllB bs)
+    (h : decodeList f fuel bs = .ok l) (hw : ∀ n ∈ l, noWrap n) : ∀ n ∈ l, WFN n := by
+  induction fuel generalizing bs l with
+  | zero =>
+      cases bs with
+      | nil => simp [decodeList] at h; subst h; simp
+      | cons b tl => simp [decodeList] at h
+  | succ fuel ih =>
+      cases bs with
+      | nil => simp [decodeList] at h; subst h; simp
+      | cons b tl =>
+          simp only [decodeList] at h
+          cases hd : decodeOne f (b :: tl) with
+          | ok r =>
+              obtain ⟨n, rest⟩ := r
+              simp only [hd] at h
+              cases hl : decodeList f fuel rest with
+              | ok l' =>
+                  simp only [hl, Out.map_ok, Out.ok.injEq] at h; subst h
+                  obtain ⟨hwf, hrest⟩ := decodeOne_wf f (b :: tl) n rest hb hd (hw n (by simp))
+                  intro m hm
+                  rcases List.mem_cons.mp hm with rfl | hm
+                  · exact hwf
+                  · exact ih rest l' hrest hl (fun k hk => hw k (List.mem_cons_of_mem _ hk)) m hm
+              | err => simp [hl, Out.map] at h
+              | panic => simp [hl, Out.map] at h
+          | err => simp [hd] at h
+          | panic => simp [hd] at h
+
+/-- `attr_from_api` never panics (every fallible step is an `Err`) -/
+theorem fromApi_no_panic (x : ApiAttr) : fromApi current x ≠ .panic := by
+  intro hf
+  cases x <;> simp [fromApi, newWithBin, newWithValue, canonicalFlags] at hf <;>
+    (repeat' (split at hf)) <;> simp_all
+
+/-- `net_from_api` never panics (modelled kinds) -/
+theorem netFromApi_no_panic (x : ApiNlri) : netFromApi current x ≠ .panic := by
+  intro hf
+  cases x <;> simp [netFromApi] at hf <;> (repeat' (split at hf)) <;> simp_all
+
+theorem decPrefix_no_panic (w bits : Nat) (bs : Bytes) : decPrefix w bits bs ≠ .panic := by
+  unfold decPrefix; split <;> simp
+
+theorem decodePlain_no_panic (w : Nat) (bs : Bytes) : decodePlain w bs ≠ .panic := by
+  unfold decodePlain
+  cases bs with
+  | nil => simp
+  | cons b tl =>
+      simp only
+      cases hp : decPrefix w b tl with
+      | ok r => obtain ⟨a, r'⟩ := r; simp
+      | err => simp
+      | panic => exact absurd hp (decPrefix_no_panic _ _ _)
+
+theorem decodeLabeled_no_panic (w : Nat) (bs : Bytes) : decodeLabeled w bs ≠ .panic := by
+  unfold decodeLabeled
+  cases bs with
+  | nil => simp
+  | cons total tl =>
+      simp only
+      split
+      · simp
+      · cases hd : decLabels tl with
+        | none => simp
+        | some r =>
+            obtain ⟨ls, rest'⟩ := r
+            simp only
+            split
+            · simp
+            · cases hp : decPrefix w (total - ls.length * 24 % 256) rest' with
+              | ok r => obtain ⟨a, r'⟩ := r; simp
+              | err => simp
+              | panic => exact absurd hp (decPrefix_no_panic _ _ _)
+
+theorem decodeVpn_no_panic (w : Nat) (bs : Bytes) : decodeVpn w bs ≠ .panic := by
+  unfold decodeVpn
+  cases bs with
+  | nil => simp
+  | cons total tl =>
+      simp only
+      split
+      · simp
+      · cases hd : decLabels tl with
+        | none => simp
+        | some r =>
+            obtain ⟨ls, rest'⟩ := r
+            simp only
+            split
+            · simp
+            · split
+              · simp
+              · cases hrd : decRd (rest'.take 8) with
+                | none => simp
+                | some rd =>
+                    simp only
+                    cases hp : decPrefix w (total - ls.length * 24 - 64) (rest'.drop 8) with
+                    | ok r => obtain ⟨a, r'⟩ := r; simp
+                    | err => simp
+                    | panic => exact absurd hp (decPrefix_no_panic _ _ _)
+
+theorem map_no_panic {α β} (f : α → β) (o : Out α) (h : o ≠ .panic) : o.map f ≠ .panic := by
+  cases o <;> simp [Out.map] at h ⊢
+
+theorem decodeOne_no_panic (f : Fam) (bs : Bytes) : decodeOne f bs ≠ .panic := by
+  cases f <;> simp only [decodeOne]
+  · exact map_no_panic _ _ (decodePlain_no_panic 4 bs)
+  · exact map_no_panic _ _ (decodePlain_no_panic 16 bs)
+  · exact map_no_panic _ _ (decodeLabeled_no_panic 4 bs)
+  · exact map_no_panic _ _ (decodeLabeled_no_panic 16 bs)
+  · exact map_no_panic _ _ (decodeVpn_no_panic 4 bs)
+  · exact map_no_panic _ _ (decodeVpn_no_panic 16 bs)
+
+theorem decodeList_no_panic (f : Fam) (fuel : Nat) (bs : Bytes) : decodeList f fuel bs ≠ .panic := by
+  induction fuel generalizing bs with
+  | zero => cases bs <;> simp [decodeList]
+  | succ fuel ih =>
+      cases bs with
+      | nil => simp [decodeList]
+      | cons b tl =>
+          simp only [decodeList]
+          cases hd : decodeOne f (b :: tl) with
+          | ok r =>
+              obtain ⟨n, rest⟩ := r
+              simp only
+              exact map_no_panic _ _ (ih rest)
+          | err => simp
+          | panic => exact absurd hd (decodeOne_no_panic _ _)
+
+/-- inputs on which the property is claimed for the code as it is now.
+    * `attrWire`: the flags byte is the RFC one for the code.  Any other flags byte (PARTIAL, EXTENDED
+      LENGTH on a short value, unused low bits) is stored verbatim by the decoder but not carried by the
+      API — the open finding `roundtrip-flags-differ`, see `Props.flags_not_carried`.
+    * `nlriWire`: a labeled-unicast label stack does not wrap the one-octet bit arithmetic of labeled.rs
+      (`(encoded_len * 8) as u8`, 11 labels or more; S7, owned by C03/C04). -/
+def caseOk : Case → Prop
+  | .attrWire code flags _ => ∀ f, canonicalFlags code = some f → flags = f
+  | .attrApi x => x.inRange = true
+  | .nlriWire f bs =>
+      AllB bs ∧ ∀ l, decodeList f bs.length bs = .ok l → ∀ n ∈ l, noWrap n
+  | .nlriApi x => x.inRange = true
+  | .explore _ => True
+
+/-- **master theorem**: the reference checker written from the property text accepts every run of the
+    model of the current code. -/
+theorem check_run_ok (c : Case) (h : caseOk c) : Spec.check c (run current c) = .ok := by
+  cases c with
+  | attrWire code flags bs =>
+      simp only [run]
+      cases hok : wireCaseOk code flags bs with
+      | false => rfl
+      | true =>
+        simp only [Bool.not_true, Bool.false_eq_true, if_false]
+        simp only [wireCaseOk, Bool.and_eq_true, decide_eq_true_eq, List.all_eq_true, Bool.or_eq_true] at hok
+        obtain ⟨⟨⟨⟨⟨⟨⟨hm, _⟩, _⟩, hc⟩, hf⟩, hb⟩, _⟩, _⟩ := hok
+        cases hd : decodeAttr code flags bs with
+        | stored a =>
+            obtain ⟨hwf, hcode, hflags, hs⟩ := decode_wf code flags bs a hc hf hb hd
+            have hfc : flagsCanon a := by
+              intro f hf'; rw [hcode] at hf'; rw [hflags]; exact h f hf'
+            have hrt := roundtrip_attr a hwf (by rw [hcode]; exact hm) (by rw [hcode]; omega) hfc
+            exact checkAttr_ok "decoded" a hwf hrt
+        | rejected => rfl
+        | dropped => rfl
+  | attrApi x =>
+      simp only [run]
+      cases hf : fromApi current x with
+      | ok a =>
+          simp only
+          split
+          · rename_i hm
+            obtain ⟨hwf, hrt⟩ := from_api_rt x a h hf hm
+            exact checkAttr_ok "accepted" a hwf hrt
+          · rfl
+      | err => rfl
+      | panic => exact absurd hf (fromApi_no_panic x)
+  | nlriWire f bs =>
+      obtain ⟨hb, hw⟩ := h
+      simp only [run]
+      split
+      · rfl
+      · cases hd : decodeList f bs.length bs with
+        | ok l =>
+            simp only
+            split
+            · rfl
+            · exact checkAll_ok "decoded" l (decodeList_wf f _ bs l hb hd (hw l hd))
+        | err => rfl
+        | panic => exact absurd hd (decodeList_no_panic _ _ _)
+  | nlriApi x =>
+      simp only [run]
+      cases hf : netFromApi current x with
+      | ok n =>
+          have hwf := nlri_from_api_wf x n h hf
+          simp only [Spec.check, List.map_cons, List.map_nil, checkAll, checkNlri_ok "accepted" n hwf, seq]
+      | err => rfl
+      | panic => exact absurd hf (netFromApi_no_panic x)
+  | explore k => rfl
 
 end Rbgp.Api
